@@ -696,6 +696,38 @@ type c06ForgeCase struct {
 
 func c06CheckForge(c c06ForgeCase) engine.Result {
 	var res engine.Result
+	if c.Variant >= 100 {
+		// a table whose CRC_32 bytes look like the stuffing behind it (or like sync bytes)
+		sec, ok := c14ForgeTo(c14StuffingLikeCRCs[c.Variant-100])
+		if !ok {
+			res.Failf("harness|crc-forgery-failed", "target %#x", c14StuffingLikeCRCs[c.Variant-100])
+			return res
+		}
+		payload := c06Payload(0, ref.PMTBytes(sec, false), 5)
+		w := c06MakeWant(&sec)
+		engine.Guard(&res, "crc-collisions", func() {
+			res.Evals += 2
+			pmt, err := psi.NewPMT(payload)
+			if err != nil || pmt == nil {
+				res.Failf("NewPMT|CRC_32-bytes-look-like-stuffing|error", "%v", err)
+				return
+			}
+			c06Verify(&res, "NewPMT|CRC_32-bytes-look-like-stuffing|", pmt, w, true)
+			spans, _ := ref.PayloadSections(payload)
+			c06Prefixes(&res, "CRC_32-bytes-look-like-stuffing", payload, spans)
+			c06CRC(&res, "CRC_32-bytes-look-like-stuffing", payload, spans, c14StuffingLikeCRCs[c.Variant-100])
+			ts := c06NestStream(&sec, 0x64, c.First)
+			rp, err := psi.ReadPMT(bytes.NewReader(ts), 0x64)
+			if err != nil || rp == nil {
+				res.Failf("ReadPMT|CRC_32-bytes-look-like-stuffing|error", "%v", err)
+				return
+			}
+			c06Verify(&res, "ReadPMT|CRC_32-bytes-look-like-stuffing|", rp, w, true)
+		})
+		res.Nontrivial = 2
+		res.Outcome(c.Variant, c.First)
+		return res
+	}
 	a, b, ok := c14ForgePair(c.Variant)
 	if !ok {
 		res.Failf("harness|crc-forgery-failed", "variant %d", c.Variant)
@@ -895,6 +927,30 @@ func c06BigSection(target, variant int) ref.PMTSection {
 		}
 		return s
 	}
+	if variant == 3 {
+		// one stream with as many two-byte (empty-bodied) and three-byte descriptors as fit, then a plain
+		// stream behind it: the per-stream descriptor count passes 127 and 255 (up to ~500)
+		s := ref.PMTSection{Program: 0x0404, Version: byte(target & 31), CurrentNext: true, PCRPID: 0x31}
+		room := target - 13 - 5 - 5
+		first := ref.Stream{Type: 0x1B, PID: 0x41}
+		for i := 0; room >= 2; i++ {
+			if room == 3 || (room > 4 && i%50 == 49) {
+				first.Descs = append(first.Descs, ref.Desc{Tag: byte(0x80 + i%0x40), Body: []byte{byte(i)}})
+				room -= 3
+			} else {
+				first.Descs = append(first.Descs, ref.Desc{Tag: byte(0x80 + i%0x40), Body: []byte{}})
+				room -= 2
+			}
+		}
+		s.Streams = []ref.Stream{first, {Type: 0x0F, PID: 0x42}}
+		if room == 1 {
+			s.ProgDescs = nil
+			s.Streams[1].Descs = []ref.Desc{{Tag: 0x52, Body: []byte{}}} // absorbs an odd byte together with the next line
+			first.Descs[len(first.Descs)-1] = ref.Desc{Tag: 0xBF, Body: []byte{}}
+			s.Streams[0] = first
+		}
+		return s
+	}
 	s := ref.PMTSection{Program: uint16(0x0101 * (variant + 1)), Version: byte((target + variant) & 31), CurrentNext: variant%2 == 0, PCRPID: 0x31}
 	if variant > 0 {
 		s.ProgDescs = []ref.Desc{c06DescMenu[2], c06DescMenu[5]}
@@ -1050,6 +1106,12 @@ func c06GenBig(r *engine.Run, emit func(c06BigCase)) {
 			}
 		}
 	}
+	// one stream with 125..129, 254..258, 300 and ~496 tiny descriptors
+	for _, n := range []int{125, 127, 128, 129, 254, 255, 256, 257, 258, 300, 496} {
+		for _, lead := range []int{0, 7} {
+			emit(c06BigCase{23 + 2*n, 3, lead, false})
+		}
+	}
 	// many descriptor-less streams: 125..129 and the maximum of 201
 	for _, sl := range []int{13 + 5*125, 13 + 5*127, 13 + 5*128 + 2, 13 + 5*129, 1021} {
 		for _, lead := range []int{0, 7} {
@@ -1179,7 +1241,7 @@ func init() {
 			},
 			&engine.Enum[c06BigCase]{
 				Name: "large-sections",
-				Rule: "case = section padded to an exact section_length in {150,180,181,184,400,1021} (thorough: 16 lengths around the one-, two- and three-packet limits up to the maximal 1021) x 2 content variants (plus a third with as many descriptor-less streams as fit: 125, 127, 128, 129 and 201 streams) x lead-in {pointer_field 0, pointer_field 100 with filler, foreign section first} x last-packet style (quick: one style per variant); the last stream's ES_info_length exceeds 255; per case: accessors, done predicate on every prefix, ExtractCRC, NewPMT, ReadPMT for every first-packet size 1..184 x second packet full/3 bytes with a foreign-PID packet in every gap; non-trivial = each (case, first size, second size)",
+				Rule: "case = section padded to an exact section_length in {150,180,181,184,400,1021} (thorough: 16 lengths around the one-, two- and three-packet limits up to the maximal 1021) x 2 content variants (plus a third with as many descriptor-less streams as fit: 125, 127, 128, 129 and 201 streams, and a fourth with one stream carrying 125..129, 254..258, 300 and ~496 tiny descriptors) x lead-in {pointer_field 0, pointer_field 100 with filler, foreign section first} x last-packet style (quick: one style per variant); the last stream's ES_info_length exceeds 255; per case: accessors, done predicate on every prefix, ExtractCRC, NewPMT, ReadPMT for every first-packet size 1..184 x second packet full/3 bytes with a foreign-PID packet in every gap; non-trivial = each (case, first size, second size)",
 				Gen:  c06GenBig, Check: witnessEnum(c06CheckBig, witnessPSI), Batch: 1,
 			},
 			&engine.Enum[c06ReuseCase]{
@@ -1214,11 +1276,16 @@ func init() {
 			},
 			&engine.Enum[c06ForgeCase]{
 				Name: "crc-collisions",
-				Rule: "4 pairs (A,B) of different well-formed tables whose CRC_32 fields hold the same 32-bit value (four free registration-descriptor bytes solved for over GF(2); B has other stream types / another stream set / other descriptors / the next version_number) x first-packet payload {184,100,20}: NewPMT and ReadPMT in the order A,B,A,B,B,A, every result and every earlier object judged against its own table; all cases in one worker (anything remembered under the CRC_32 between calls shows)",
+				Rule: "4 pairs (A,B) of different well-formed tables whose CRC_32 fields hold the same 32-bit value (four free registration-descriptor bytes solved for over GF(2); B has other stream types / another stream set / other descriptors / the next version_number) x first-packet payload {184,100,20}: NewPMT and ReadPMT in the order A,B,A,B,B,A, every result and every earlier object judged against its own table; all cases in one worker (anything remembered under the CRC_32 between calls shows); plus tables whose CRC_32 is forged to FFFFFFFF, 00000000, FF000000, 000000FF, FFFFFF00, 00FFFFFF, 47474747 (NewPMT, ReadPMT, completion predicate on every prefix, ExtractCRC)",
 				Gen: func(r *engine.Run, emit func(c06ForgeCase)) {
 					for v := 0; v < 4; v++ {
 						for _, f := range []int{184, 100, 20} {
 							emit(c06ForgeCase{v, f})
+						}
+					}
+					for i := range c14StuffingLikeCRCs {
+						for _, f := range []int{184, 50, 20} {
+							emit(c06ForgeCase{100 + i, f})
 						}
 					}
 				},
